@@ -28,6 +28,7 @@ try:
 except ImportError:
   pass
 PY = os.path.join(ROOT, '.venv', 'bin', 'python')
+OUT = os.environ.get('VT_OUT', ROOT)
 MARGINS = [Fr(1), Fr(1, 100), Fr(1, 10000), Fr(1, 1000000)]
 
 
@@ -35,6 +36,9 @@ class Case(object):
   """One real function under its contract, for a family of configurations."""
   contract_key = None
   xcheck = True
+  public = True            # is the function an entry point named by the property?
+  lift_case = None         # public case that decides a modular failure here (None: this case)
+  lift_keep_stubs = ()     # contracts that stay stubbed when lifting (e.g. loops proved elsewhere)
 
   def build(self, cfg):
     """Returns (args, kwargs) with fresh symbolic tensors; runs inside a ctx."""
@@ -137,9 +141,11 @@ def run_case(job):
 
     if case.contract_key is not None:
       ct = H.REGISTRY[case.contract_key]
+      only = getattr(case, 'stub_only', None)
+      if opts.get('inline'):
+        only = tuple(case.lift_keep_stubs)
       res = H.verify(ct, lambda: case.build(cfg), label, case.loop_mode(cfg), timeout_ms,
-                     case.extra_pre(cfg), True, setup,
-                     getattr(case, 'stub_only', None))
+                     case.extra_pre(cfg), True, setup, only)
       if res == (None, None):
         out['error'] = 'function %s not found in the working tree' % case.contract_key
         out['error_kind'] = 'missing'
@@ -157,7 +163,7 @@ def run_case(job):
       out['goals'].append(d)
     # robust counterexamples for refuted goals: needs the formulas again -> redo per goal
     if any(g.status == 'refuted' for g in results) and opts.get('margins', True):
-      _robustify(out, case, cfg, pm, timeout_ms)
+      _robustify(out, case, cfg, pm, timeout_ms, opts)
     st = dict(stats)
     for k in ('assumption_kinds', 'axioms', 'stubs'):
       st[k] = sorted(st.get(k, []))
@@ -173,7 +179,7 @@ def run_case(job):
   return out
 
 
-def _robustify(out, case, cfg, pm, timeout_ms):
+def _robustify(out, case, cfg, pm, timeout_ms, opts=None):
   """Re-runs the case and, for each refuted goal, looks for a model violating it by a margin."""
   from . import expr as E, harness as H, ctx as C, solve
   want = {(g['name'], tuple(g['path'])) for g in out['goals'] if g['status'] == 'refuted'}
@@ -192,7 +198,10 @@ def _robustify(out, case, cfg, pm, timeout_ms):
       if ep:
         for name, b in ep(*args, **kw):
           c.assume(b, 'pre+:' + name)
-      with H.stubbed(except_keys=(ct.key,), only=getattr(case, 'stub_only', None)):
+      only = getattr(case, 'stub_only', None)
+      if opts and opts.get('inline'):
+        only = tuple(case.lift_keep_stubs)
+      with H.stubbed(except_keys=(ct.key,), only=only):
         o = real(*args, **kw)
       return ct.post(o, *args, **kw)
     return case.body(cfg, c)
@@ -509,12 +518,14 @@ def main(pm, argv=None):
   timeout_ms = 20000 if a.tier == 'quick' else 120000
   opts = {'timeout_ms': timeout_ms, 'xcheck': True, 'seed': seed}
   work = [(pm.__name__, cn, cfg, opts) for cn, cfg in jobs]
-  results = []
-  if a.jobs <= 1:
-    _worker_init()
-    for w in work:
-      results.append(run_case(w))
-  else:
+
+  def run_jobs(work):
+    results = []
+    if a.jobs <= 1:
+      _worker_init()
+      for w in work:
+        results.append(run_case(w))
+      return results
     ctxm = mp.get_context('forkserver')
     with ctxm.Pool(min(a.jobs, max(1, len(work))), initializer=_worker_init, maxtasksperchild=20) as pool:
       for r in pool.imap_unordered(run_case, work, chunksize=1):
@@ -522,11 +533,14 @@ def main(pm, argv=None):
         if a.v:
           print('.. %s %s %.1fs %s' % (r['case'], json.dumps(r['cfg'], default=str)[:100],
                                        r.get('wall', 0), r['error'] or ''), flush=True)
+    return results
+
+  results = run_jobs(work)
   results.sort(key=lambda r: (r['case'], json.dumps(r['cfg'], sort_keys=True, default=str)))
-  return conclude(pm, a.tier, seed, results, t0)
+  return conclude(pm, a.tier, seed, results, t0, run_jobs=run_jobs, opts=opts)
 
 
-def conclude(pm, tier, seed, results, t0, extra=None):
+def conclude(pm, tier, seed, results, t0, extra=None, run_jobs=None, opts=None):
   prop_id = pm.PROPERTY
   known = load_known(prop_id)
   errors = [r for r in results if r['error'] and r.get('error_kind') != 'missing']
@@ -565,7 +579,7 @@ def conclude(pm, tier, seed, results, t0, extra=None):
   # --- replay refutations natively
   violations = []
   known_hits = collections.OrderedDict()
-  os.makedirs(os.path.join(ROOT, 'replays', prop_id), exist_ok=True)
+  os.makedirs(os.path.join(OUT, 'replays', prop_id), exist_ok=True)
   # group: one replay per (case, cfg, model)
   # phase 1: descriptors; phase 2: one native process; phase 3: evaluate clauses on real output
   prepared = []
@@ -596,6 +610,62 @@ def conclude(pm, tier, seed, results, t0, extra=None):
       except Exception as e:  # pylint: disable=broad-except
         g['replay'] = {'error': '%s: %s' % (type(e).__name__, e),
                        'trace': traceback.format_exc()[-2000:]}
+  # Modular failures that do not reproduce at their own function are *lifted*: the public
+  # function of the same configuration is re-verified with its callees inlined.  All clauses
+  # proved there => the edit was harmless for the property (no alarm); a refutation there gives
+  # an input for the public API, replayed natively.
+  lifted_ok = []
+  groups = collections.OrderedDict()
+  for g in refuted:
+    rep = g.get('replay')
+    case = pm.CASES[g['_case']]
+    if (rep and rep.get('failing')) or case.contract_key is None:
+      continue
+    if [k for k in known if matches_known(k, g, g['_cfg'])]:
+      continue
+    lc = case.lift_case or g['_case']
+    groups.setdefault((lc, json.dumps(g['_cfg'], sort_keys=True, default=str)), []).append(g)
+  if groups and run_jobs is not None:
+    keys = list(groups)[:16]
+    lopts = dict(opts or {}, inline=True, xcheck=False, timeout_ms=4000, margins=False)
+    lwork = [(pm.__name__, lc, groups[(lc, cj)][0]['_cfg'], lopts) for (lc, cj) in keys]
+    lres = run_jobs(lwork)
+    bykey = {(r['case'], json.dumps(r['cfg'], sort_keys=True, default=str)): r for r in lres}
+    second = []
+    for key in keys:
+      r = bykey.get(key)
+      if r is None or r['error']:
+        continue
+      st = [x['status'] for x in r['goals']]
+      if st and all(x == 'proved' for x in st):
+        for g in groups[key]:
+          g['lifted'] = 'proved-inline'
+          lifted_ok.append(g)
+        continue
+      bad = [x for x in r['goals'] if x['status'] == 'refuted']
+      if bad:
+        b0 = bad[0]
+        for g in groups[key]:
+          g['lifted'] = {'case': key[0], 'clause': b0['name'], 'model': b0.get('model'),
+                         'margin': b0.get('margin')}
+        try:
+          second.append((groups[key], key[0], _replay_prepare(pm, key[0], r['cfg'], b0.get('model')),
+                         r['cfg'], b0))
+        except Exception:  # pylint: disable=broad-except
+          pass
+    if second:
+      try:
+        nats2 = run_native([d for _, _, d, _, _ in second])
+        for (gs, lc, d, lcfg, b0), n2 in zip(second, nats2):
+          r2 = _replay_evaluate(pm, lc, lcfg, b0.get('model'), d, n2)
+          if r2.get('failing'):
+            r2['note'] = ('input found by re-verifying %s with its callees inlined' % lc)
+            for g in gs:
+              g['replay'] = r2
+              g['model'] = b0.get('model')
+      except Exception as e:  # pylint: disable=broad-except
+        errors.append({'case': 'replay', 'cfg': {}, 'error': 'native replay (lift) failed: %s' % e})
+  refuted = [g for g in refuted if g.get('lifted') != 'proved-inline']
   for g in refuted:
     cfg = g['_cfg']
     kn = [k for k in known if matches_known(k, g, cfg)]
@@ -623,7 +693,7 @@ def conclude(pm, tier, seed, results, t0, extra=None):
     vid = hashlib.sha256(json.dumps([g['fn'], g['name'], g['_cfg']], sort_keys=True,
                                     default=str).encode()).hexdigest()[:12]
     path = os.path.join('replays', prop_id, '%s.json' % vid)
-    with open(os.path.join(ROOT, path), 'w') as f:
+    with open(os.path.join(OUT, path), 'w') as f:
       json.dump({'property': prop_id, 'obligation': g['name'], 'function': g['fn'],
                  'case': g['_case'], 'cfg': g['_cfg'], 'kind': g['kind'], 'model': g.get('model'),
                  'margin': g.get('margin'), 'backend': g['backend'], 'solver_detail': g['detail'],
@@ -643,13 +713,19 @@ def conclude(pm, tier, seed, results, t0, extra=None):
     rc = 2
 
   wall = time.time() - t0
+  extra = dict(extra or {})
+  extra['modular_failures_resolved_by_inline_proof'] = len(lifted_ok)
   ev = build_evidence(pm, tier, seed, results, goals, proved, refuted, unknown, violations,
                       known_hits, xc_stats, errors, missing, wall, extra)
-  os.makedirs(os.path.join(ROOT, 'evidence'), exist_ok=True)
-  with open(os.path.join(ROOT, 'evidence', '%s.json' % prop_id), 'w') as f:
+  os.makedirs(os.path.join(OUT, 'evidence'), exist_ok=True)
+  with open(os.path.join(OUT, 'evidence', '%s.json' % prop_id), 'w') as f:
     json.dump(ev, f, indent=1, default=str)
   for l in lines:
     print(l)
+  if lifted_ok:
+    print('NOTE: %d modular obligations failed but the public function was re-verified with its '
+          'callees inlined and every clause was proved (no alarm), e.g. %s:%s' %
+          (len(lifted_ok), lifted_ok[0]['fn'], lifted_ok[0]['name']))
   for e in errors[:10]:
     print('CHECKER-ERROR %s %s: %s' % (e.get('case'), json.dumps(e.get('cfg'), default=str)[:200],
                                        e['error']))
